@@ -136,13 +136,17 @@ impl<'a> LspServer<'a> {
     fn handle_request(&self, req: lsp_server::Request) -> &'static str {
         let req_id = req.id.clone();
         let req = match Self::cast_request::<request::Shutdown>(req) {
-            Ok(_params) => {
+            Ok(Ok(_params)) => {
+                return request::Shutdown::METHOD;
+            }
+            Ok(Err(message)) => {
+                self.send_error_response(req_id, lsp_server::ErrorCode::InvalidParams, message);
                 return request::Shutdown::METHOD;
             }
             Err(req) => req,
         };
-        let _request = match Self::cast_request::<request::SemanticTokensFullRequest>(req) {
-            Ok(params) => {
+        let req = match Self::cast_request::<request::SemanticTokensFullRequest>(req) {
+            Ok(Ok(params)) => {
                 let uri = params.text_document.uri;
                 let token_result = self.project.tokenize(&uri);
 
@@ -165,23 +169,53 @@ impl<'a> LspServer<'a> {
 
                 return request::SemanticTokensFullRequest::METHOD;
             }
+            Ok(Err(message)) => {
+                self.send_error_response(req_id, lsp_server::ErrorCode::InvalidParams, message);
+                return request::SemanticTokensFullRequest::METHOD;
+            }
             Err(req) => req,
         };
+
+        // Every request must be answered exactly once, so answer requests for
+        // methods that this server does not implement with an error.
+        self.send_error_response(
+            req_id,
+            lsp_server::ErrorCode::MethodNotFound,
+            format!("Method {} is not implemented", req.method),
+        );
         ""
     }
 
-    fn cast_request<T>(request: lsp_server::Request) -> Result<T::Params, lsp_server::Request>
+    /// Tries to interpret the request as a request of type `T`.
+    ///
+    /// Returns `Err` with the request if the request is for another method.
+    /// Returns `Ok(Err)` with a message if the request is for the method but
+    /// the parameters are not valid for the method.
+    #[allow(clippy::type_complexity)]
+    fn cast_request<T>(
+        request: lsp_server::Request,
+    ) -> Result<Result<T::Params, String>, lsp_server::Request>
     where
         T: lsp_types::request::Request,
         T::Params: DeserializeOwned,
     {
-        request
-            .extract(T::METHOD)
-            .map(|val| val.1)
-            .map_err(|e| match e {
-                ExtractError::MethodMismatch(n) => n,
-                err @ ExtractError::JsonError { .. } => panic!("Invalid request: {err:?}"),
-            })
+        match request.extract(T::METHOD) {
+            Ok(val) => Ok(Ok(val.1)),
+            Err(ExtractError::MethodMismatch(n)) => Err(n),
+            Err(ExtractError::JsonError { method, error }) => {
+                Ok(Err(format!("Invalid parameters for {method}: {error}")))
+            }
+        }
+    }
+
+    fn send_error_response(
+        &self,
+        request_id: RequestId,
+        code: lsp_server::ErrorCode,
+        message: String,
+    ) {
+        let response = lsp_server::Response::new_err(request_id, code as i32, message);
+        self.sender.send(Message::Response(response)).unwrap()
     }
 
     fn send_response<R>(&self, request_id: RequestId, params: R::Result)
